@@ -700,6 +700,26 @@ class FnBounds:
                     self.nonneg.add("strlen(%s)" % dt)
                     self.add_le(F2, lin_term("strlen(%s)" % dt), src)
                     self.add_le(F2, src, lin_term("strlen(%s)" % dt))
+                if name in ("snprintf", "vsnprintf", "__builtin_snprintf") and len(n["args"]) > 1:
+                    # the append idiom  snprintf(X + strlen(X), C - strlen(X), ...): afterwards strlen(X) <= C
+                    # (nothing is written when the size is 0; else the output is cut to fit and terminated)
+                    dn, zn = fn.sn(n["args"][0]), fn.sn(n["args"][1])
+                    if dn["k"] == "bin" and dn["op"] == "+" and zn["k"] == "bin" and zn["op"] == "-":
+                        sl, sr = fn.sn(dn["r"]), fn.sn(zn["r"])
+                        if sl["k"] == "call" and sl.get("callee") in ("strlen", "__builtin_strlen") and sr["k"] == "call" and sr.get("callee") in ("strlen", "__builtin_strlen") \
+                                and self.term(sl["args"][0]) == self.term(dn["l"]) == self.term(sr["args"][0]):
+                            sx = "strlen(%s)" % self.term(dn["l"])
+                            cl = self.lin(zn["l"])
+                            F2.kill(lambda t, sx=sx: t == sx)
+                            if cl is not None:
+                                self.nonneg.add(sx)
+                                self.add_le(F2, lin_term(sx), cl)
+                            return F2
+                    # post-condition (man page): the output is truncated to fit and terminated: strlen(dst) + 1 <= size (size >= 1)
+                    sz = self.lin(n["args"][1])
+                    if sz is not None and (sz[0] or sz[1] >= 1):
+                        self.nonneg.add("strlen(%s)" % dt)
+                        self.add_le(F2, lin_add(lin_term("strlen(%s)" % dt), lin_const(1)), sz)
             return F2 or F
         if name in PURE_EXT or name in PURE_REPO or self.eng.is_pure(fn, nid):
             return F2 or F
@@ -729,6 +749,14 @@ class FnBounds:
                 k = n["k"]
                 if k == "bin" and n["op"] in ("=", "+=", "-="):
                     F = self.assign(F, n["l"], n["r"], n["op"], e)
+                    ln0 = fn.sn(n["l"])
+                    if n["op"] == "=" and ln0["k"] == "index" and C.const_of(fn, ln0["idx"]) == 0 and C.const_of(fn, n["r"]) == 0 and ln0.get("sz", 1) == 1:
+                        # X[0] = '\0': the string at X is empty
+                        st0 = "strlen(%s)" % self.term(ln0["base"])
+                        F = F.copy()
+                        F.kill(lambda t, st0=st0: t == st0)
+                        self.nonneg.add(st0)
+                        self.add_le(F, lin_term(st0), lin_const(0))
                 elif k == "bin" and n["op"] in ("*=", "/=", "%=", "&=", "|=", "^=", "<<=", ">>="):
                     F = self.assign(F, n["l"], None, "?", e)
                 elif k == "un" and n["op"] in ("++", "--", "post++", "post--"):
@@ -1238,6 +1266,13 @@ class Engine:
                 elif spec[0] == "unbounded":
                     size = None
                 goals.append((size, cap, self._origin(f, nid, "%s(%s)" % (x, f.show(n["args"][di])[:40]))))
+                # a size computed as an unsigned difference must not wrap: `capacity - used` needs used <= capacity
+                if spec[0] == "arg":
+                    sx = f.nodes[f.origin(n["args"][spec[1]])]
+                    if sx["k"] == "bin" and sx["op"] == "-" and ("unsigned" in (sx.get("ct") or sx.get("t") or "") or "size_t" in (sx.get("t") or "")):
+                        a, b = fb.lin(sx["l"]), fb.lin(sx["r"])
+                        if a is not None and b is not None:
+                            goals.append((b, a, self._origin(f, nid, "%s(%s):size-wraps" % (x, f.show(n["args"][di])[:30]))))
         for d in defs:
             if d.name in PURE_REPO:
                 continue
